@@ -63,11 +63,21 @@ bool
 track_is_live(const void* p);
 size_t
 track_size(const void* p);
-// allocation failure injection is deliberately not offered (DESIGN C13)
+// allocation failure: the k-th tracked allocation from now returns NULL once
+// (0 disarms); fired = 0 no, 1 malloc/calloc, 2 realloc
+void
+track_fail_nth(int k);
+int
+track_fail_fired();
 
 // guard allocator behind the simulated camera's malloc family
 void*
 guard_alloc(size_t align, size_t n);
+// the k-th guarded allocation from now returns NULL once (0 disarms)
+void
+guard_fail_nth(int k);
+bool
+guard_fail_fired();
 void
 guard_free(void* p);
 size_t
